@@ -224,11 +224,11 @@ def unifyValue : Nat → Tm → Tm → Dict → M (Tm × Dict)
   | n + 1, v1, v2, sv =>
     match v1.key?, v2.key? with
     | some k1, some k2 =>
-      if k1 == k2 then .ok (v1, sv)                       -- :89
+      if k1 == k2 then .ok (v1, sv)                       -- :93
       else match k1, k2 with
-        | none, _ => .ok (v2, sv)                          -- :91
-        | _, none => .ok (v1, sv)                          -- :93
-        | some x, some y =>                                -- :95 two named variables
+        | none, _ => .ok (v2, sv)                          -- :95
+        | _, none => .ok (v1, sv)                          -- :97
+        | some x, some y =>                                -- :99 two named variables
           match unifyValue n (sv.get k1) (sv.get k2) sv with
           | .error e => .error e
           | .ok (value, sv) =>
@@ -238,26 +238,26 @@ def unifyValue : Nat → Tm → Tm → Dict → M (Tm × Dict)
             .ok (value, sv)
     | some k1, none =>
       match k1 with
-      | none => .ok (v2, sv)                               -- :111
+      | none => .ok (v2, sv)                               -- :113
       | some _ =>
-        if v2.hasKey k1 then .error .occurs                -- :114
+        if v2.hasKey k1 then .error .occurs                -- :116
         else match unifyValue n (sv.get k1) v2 sv with
           | .error e => .error e
           | .ok (value, sv) => .ok (value, sv.set k1 value)
     | none, some k2 =>
       match k2 with
-      | none => .ok (v1, sv)                               -- :121
+      | none => .ok (v1, sv)                               -- :122
       | some _ =>
-        if v1.hasKey k2 then .error .occurs                -- :124
+        if v1.hasKey k2 then .error .occurs                -- :125
         else match unifyValue n (sv.get k2) v1 sv with
           | .error e => .error e
           | .ok (value, sv) => .ok (value, sv.set k2 value)
     | none, none =>
-      if v1.sig == v2.sig then                             -- :129
+      if v1.sig == v2.sig then                             -- :130
         match unifyArgs n v1.args v2.args sv with
         | .error e => .error e
         | .ok (as, sv) => .ok (v1.withArgs as, sv)
-      else .error .unify                                   -- :137
+      else .error .unify                                   -- :138
 /-- The list comprehension over `zip(value1.args, value2.args)` (left to right, threading the dict). -/
 def unifyArgs : Nat → List Tm → List Tm → Dict → M (List Tm × Dict)
   | 0, _, _, _ => .error .fuel
@@ -271,13 +271,13 @@ def unifyArgs : Nat → List Tm → List Tm → Dict → M (List Tm × Dict)
   | _ + 1, _, _, sv => .ok ([], sv)
 end
 
-/-- `_VarTranslateWrapper` (engine_unify.py:343-371): a dict that invents a fresh variable for an unknown key. -/
+/-- `_VarTranslateWrapper` (engine_unify.py:354-383): a dict that invents a fresh variable for an unknown key. -/
 structure VTW where
   base : Dict
   minVar : Int
   deriving Repr, Inhabited
 
-/-- `__getitem__` (engine_unify.py:348). -/
+/-- `__getitem__` (engine_unify.py:359). -/
 def VTW.getItem (w : VTW) (k : Key) : Tm × VTW :=
   match w.base.find k with
   | some v => (v, w)
@@ -297,7 +297,7 @@ where applyVTWL (w : VTW) : List Tm → List Tm × VTW
     (a' :: as', w2)
 
 mutual
-/-- `unify_value_dc(value1, value2, source_values, target_values)` (engine_unify.py:141-204);
+/-- `unify_value_dc(value1, value2, source_values, target_values)` (engine_unify.py:141-205);
     `source_values` is a `_VarTranslateWrapper` as in `unify_call_return`. -/
 def unifyValueDc : Nat → Tm → Tm → VTW → Dict → M (VTW × Dict)
   | 0, _, _, _, _ => .error .fuel
@@ -318,12 +318,12 @@ def unifyValueDc : Nat → Tm → Tm → VTW → Dict → M (VTW × Dict)
         else unifyValueDc n v1 sv2 sv tv                   -- :174
     | some k1, none =>
       match k1 with
-      | none => .ok (sv, tv)                               -- :177
+      | none => .ok (sv, tv)                               -- :176
       | some _ =>
         let sv1 := sv.base.get k1
         if sv1.isAnon then .ok ({ sv with base := sv.base.set k1 v2 }, tv)   -- :181
         else match sv1.key? with
-          | some ks1 =>                                    -- :182 is_variable(sv1)
+          | some ks1 =>                                    -- :182 is_variable(sv1), occurs check :183
             if v2.hasKey ks1 then .error .occurs
             else .ok ({ sv with base := sv.base.set k1 v2 }, tv.set ks1 v2)
           | none =>
@@ -349,7 +349,7 @@ def unifyDcArgs : Nat → List Tm → List Tm → VTW → Dict → M (VTW × Dic
   | _ + 1, _, _, sv, tv => .ok (sv, tv)
 end
 
-/-- `_SubstitutionWrapper` + `substitute_all(terms, subst)` (engine_unify.py:34-59): one-step replacement. -/
+/-- `_SubstitutionWrapper` + `substitute_all(terms, subst)` (engine_unify.py:34-60): one-step replacement. -/
 def substOnce (d : Dict) : Tm → Tm
   | .var v => (d.find (some v)).getD (.var v)
   | .anon => (d.find none).getD .anon
@@ -365,7 +365,7 @@ def listSet {α} : List α → Nat → α → List α
   | x :: xs, n + 1, v => x :: listSet xs n v
 
 mutual
-/-- `_unify_call_head_single` (engine_unify.py:312-355). `ctx` = `target_context` (mutated in place). -/
+/-- `_unify_call_head_single` (engine_unify.py:311-351). `ctx` = `target_context` (mutated in place). -/
 def unifyCallHeadSingle : Nat → Tm → Tm → List Tm → Dict → M (List Tm × Dict)
   | 0, _, _, _, _ => .error .fuel
   | n + 1, src, tgt, ctx, sv =>
@@ -403,21 +403,21 @@ def unifyCallHeadArgs : Nat → List Tm → List Tm → List Tm → Dict → M (
   | _ + 1, _, _, ctx, sv => .ok (ctx, sv)
 end
 
-/-- `unify_call_head(call_args, head_args, target_context)` (engine_unify.py:294-309):
+/-- `unify_call_head(call_args, head_args, target_context)` (engine_unify.py:294-308):
     returns the mutated `target_context` and the returned list `substitute_all(target_context, source_values)`
-    (which `eval_clause`, engine_stack.py:868, ignores). -/
+    (which `eval_clause`, engine_stack.py:868, and `eval_fact`, :615, ignore). -/
 def unifyCallHead (fuel : Nat) (callArgs headArgs ctx : List Tm) : M (List Tm × List Tm) :=
   match unifyCallHeadArgs fuel callArgs headArgs ctx [] with
   | .error e => .error e
   | .ok (ctx, sv) => .ok (ctx, ctx.map (substOnce sv))
 
-/-- `unify_call_return(result, call_args, context, var_translate, min_var, mask)` (engine_unify.py:374-423). -/
+/-- `unify_call_return(result, call_args, context, var_translate, min_var, mask)` (engine_unify.py:386-434). -/
 def unifyCallReturn (fuel : Nat) (result callArgs context : List Tm) (varTranslate : List (Key × Key))
     (minVar : Int) (mask : List Bool) : M (List Tm) :=
   let rec loop : List Tm → List Tm → List Bool → VTW → Dict → M (VTW × Dict)
     | r :: rs, c :: cs, m :: ms, sv, tv =>
       if m then
-        match unifyValueDc fuel c r sv tv with             -- :405
+        match unifyValueDc fuel c r sv tv with             -- :416
         | .error e => .error e
         | .ok (sv, tv) => loop rs cs ms sv tv
       else loop rs cs ms sv tv
@@ -425,25 +425,25 @@ def unifyCallReturn (fuel : Nat) (result callArgs context : List Tm) (varTransla
   match loop result callArgs mask { base := [], minVar := minVar } [] with
   | .error e => .error e
   | .ok (sv, tv) =>
-    -- :407  sv = {k: tv.get(v, v)}
+    -- :418  sv = {k: tv.get(v, v)}
     let sv1 : Dict := sv.base.map (fun (k, v) =>
       (k, match v.key? with | some kv => (tv.find kv).getD v | none => v))
-    -- :411-412  every value through the translate wrapper around tv
+    -- :422-423  every value through the translate wrapper around tv
     let step (acc : Dict × VTW) (p : Key × Tm) : Dict × VTW :=
       let (v', w) := applyVTW acc.2 p.2
       (acc.1 ++ [(p.1, v')], w)
     let (sv2, tvw) := sv1.foldl step ([], { base := tv, minVar := sv.minVar })
-    -- :416  keys through var_translate (later duplicates overwrite)
+    -- :427  keys through var_translate (later duplicates overwrite)
     let sv3 : Dict := sv2.foldl (fun d (k, v) =>
       d.set (((List.find? (fun p => p.1 == k) varTranslate).map (·.2)).getD k) v) []
-    -- :419-423
+    -- :430-434
     let step2 (acc : List Tm × VTW) (c : Tm) : List Tm × VTW :=
       match c with
       | .anon => (acc.1 ++ [.anon], acc.2)                 -- substitute_simple: None
       | _ => let (c', w) := applyVTW acc.2 c; (acc.1 ++ [c'], w)
     .ok (context.foldl step2 ([], { base := sv3, minVar := tvw.minVar })).1
 
-/-- State of `_ContextWrapper` (engine_unify.py:207-241). -/
+/-- State of `_ContextWrapper` (engine_unify.py:208-242). -/
 structure CW where
   numbers : List (Int × Int)
   translate : List (Key × Key)
@@ -463,7 +463,7 @@ def CW.number (w : CW) (key : Int) (okey : Key) : Int × CW :=
               numCount := value })
 
 mutual
-/-- `_ContextWrapper.__getitem__` (engine_unify.py:214). -/
+/-- `_ContextWrapper.__getitem__` (engine_unify.py:215). -/
 def cwGet : Nat → List Tm → CW → Key → M (Tm × CW)
   | 0, _, _, _ => .error .fuel
   | _ + 1, _, w, none => .ok (.anon, w)
@@ -477,7 +477,7 @@ def cwGet : Nat → List Tm → CW → Key → M (Tm × CW)
         match value with
         | .anon => let (v, w) := w.number key none; .ok (.var v, w)
         | .var k => let (v, w) := w.number k (some k); .ok (.var v, w)
-        | value => cwApply n ctx w value                     -- :239 value.apply(self)
+        | value => cwApply n ctx w value                     -- :241 value.apply(self)
 /-- `Term.apply(cw)`. -/
 def cwApply : Nat → List Tm → CW → Tm → M (Tm × CW)
   | 0, _, _, _ => .error .fuel
@@ -502,7 +502,7 @@ def cwApplyL : Nat → List Tm → CW → List Tm → M (List Tm × CW)
       | .ok (as, w) => .ok (a :: as, w)
 end
 
-/-- `substitute_call_args(terms, context, min_var)` (engine_unify.py:244-261); `min_var` is unused by the code. -/
+/-- `substitute_call_args(terms, context, min_var)` (engine_unify.py:245-263); `min_var` is unused by the code. -/
 def substituteCallArgs (fuel : Nat) (terms context : List Tm) : M (List Tm × List (Key × Key)) :=
   let rec loop : List Tm → CW → List Tm → M (List Tm × CW)
     | [], w, acc => .ok (acc, w)
@@ -524,7 +524,7 @@ def pyIndex (ctx : List Tm) (i : Int) : M Tm :=
     | some v => .ok v
     | none => .error .index
 
-/-- `substitute_simple(term, context)` with a list context (engine_unify.py:277-291). -/
+/-- `substitute_simple(term, context)` with a list context (engine_unify.py:279-291). -/
 def substSimpleList (ctx : List Tm) : Tm → M Tm
   | .var v => pyIndex ctx v
   | .anon => .ok .anon
@@ -542,7 +542,7 @@ where
       | .error e => .error e
       | .ok a => match go as with | .ok as => .ok (a :: as) | .error e => .error e
 
-/-- `substitute_head_args(terms, context)` (engine_unify.py:264-274). -/
+/-- `substitute_head_args(terms, context)` (engine_unify.py:266-276). -/
 def substituteHeadArgs (terms ctx : List Tm) : M (List Tm) :=
   terms.foldr (fun t acc => match substSimpleList ctx t, acc with
     | .ok v, .ok vs => .ok (v :: vs)
@@ -563,7 +563,7 @@ end
 /-- `is_ground(c)`. -/
 def Tm.ground (t : Tm) : Bool := t.keys.isEmpty
 
-/-- `StackBasedEngine.context_min_var` (engine_stack.py:838-848). -/
+/-- `StackBasedEngine.context_min_var` (engine_stack.py:841-851). -/
 def contextMinVar (ctx : List Tm) : Int :=
   ctx.foldl (fun m c => c.keys.foldl (fun m k => match k with
     | some v => if v < 0 then min m v else m
